@@ -110,12 +110,27 @@ CacheModel(e) == CacheMaximal(e) /\ CacheCapsMatch(e)
 ReachProp(e) == HasRec("cache") /\ CacheShapeOK(RecOf("cache")) /\ SeqToSet(e.nk) = CacheReach(RecOf("cache"))   \* the harness drove exactly the reachable set
 VnkProp(e) == InDims(e.N, e.K + 1) /\ <<e.Vh, e.Vl>> = Vw(e.N, e.K)              \* the V the code passes to ec_enc_uint/ec_dec_uint
 
-Kinds == {"pvq", "pvqw", "sweep", "lap", "icdfrt", "icdf", "eprob", "utab", "cache", "reach", "vnk"}
+\* ---- the p0/decay Laplace code through the real coder: rt = <<v, d1, d2, d3, tell_enc, tell_dec>> for the value v coded in
+\*      front of the values 3 and -2 with the real encoder and read back with the real decoder; cnt = how many of the 2^15
+\*      probability points decode to a zero / positive / negative value
+LapP0Prop(e) ==
+  /\ P0Domain(e.p0, e.dc)
+  /\ Len(e.rt) >= 1
+  /\ \A j \in 1..Len(e.rt) : LET x == e.rt[j] IN
+        /\ x[2] = x[1]                          \* decode inverts encode
+        /\ x[3] = 3 /\ x[4] = -2                \* and ends where the encoder ended: the next values are intact (prefix-free)
+        /\ x[5] = x[6]                          \* both sides consumed the same number of bits
+  /\ e.cnt[1] + e.cnt[2] + e.cnt[3] = 32768 /\ \A j \in 1..3 : e.cnt[j] >= 1
+LapP0Model(e) ==
+  LET t == P0SignIcdf(e.p0) IN e.cnt = <<32768 - t[1], t[1] - t[2], t[2]>>
+
+Kinds == {"pvq", "pvqw", "sweep", "lap", "lapp0", "icdfrt", "icdf", "eprob", "utab", "cache", "reach", "vnk"}
 Prop(e) ==
   CASE e.k = "pvq" -> PvqProp(e)
     [] e.k = "pvqw" -> PvqWideProp(e)
     [] e.k = "sweep" -> SweepProp(e)
     [] e.k = "lap" -> LapProp(e)
+    [] e.k = "lapp0" -> LapP0Prop(e)
     [] e.k = "icdfrt" -> IcdfRtProp(e)
     [] e.k = "icdf" -> ValidIcdf(e.t, e.ftb)
     [] e.k = "eprob" -> EprobProp(e)
@@ -129,6 +144,7 @@ Model(e) ==
     [] e.k = "pvqw" -> PvqWideModel(e)
     [] e.k = "sweep" -> SweepModel(e)
     [] e.k = "lap" -> LapModel0(e)
+    [] e.k = "lapp0" -> LapP0Model(e)
     [] e.k = "cache" -> CacheModel(e)
     [] OTHER -> TRUE
 
